@@ -157,6 +157,17 @@ def run_impl(case, run):
             fresh = [mkds(d, shape) for d in case['dss']]
             fresh[0].error *= 2.0
             out['edited_same'] = evaluate(ref, dss, case['alpha'], case['ignore']) == evaluate(fresh_ref, fresh, case['alpha'], case['ignore'])
+        # the level set to the very probability of a compared dataset: "exceeds" is strict, that dataset does not pass
+        at_level = []
+        for i, pb in enumerate(out['p']):
+            pval = unbits(pb)
+            if 0.0 < pval < 1.0:
+                fresh_ref = mkds(case['ref'], shape)
+                fresh = [mkds(d, shape) for d in case['dss']]
+                again = evaluate(fresh_ref, fresh, pval, case['ignore'])
+                if again['p'] == out['p']:
+                    at_level.append([i, pval, again['oracles'][i], again['verdict']])
+        out['at_level'] = at_level
         from scipy.stats import chi2 as law
         out['law'] = {'sf_nan': bits(law.sf(float('nan'), 3)),
                       'recomputed': [bits(law.sf(unbits(c), n)) for c, n in zip(out['chi2'], out['ndf'])]}
@@ -204,6 +215,11 @@ def oracle(case, impl, run):
         return [('no_exception', impl['exception'])]
     if impl.get('same_object_again') is False:
         fails.append(('history_independent', 'a second evaluate() on the same test object gives another result'))
+    for i, pval, orc, verdict in impl.get('at_level', []):
+        run.count('level=pvalue')
+        if orc or verdict:
+            fails.append(('verdict_iff_all_p_exceed_alpha', f'level set to the probability {pval!r} of dataset {i}: that probability '
+                          f'does not exceed the level, yet oracle={orc}, verdict={verdict}'))
     if impl.get('edited_same') is False:
         fails.append(('history_independent', 'datasets edited in place after a first comparison do not compare like new datasets '
                       'with the same content'))
